@@ -20,6 +20,7 @@ import (
 	"fmt"
 	"io"
 	"net/http"
+	"net/url"
 	"reflect"
 	"strconv"
 
@@ -214,6 +215,12 @@ func (p *untypedParamBinder) Bind(request *http.Request, routeParams RouteParams
 			}
 		}
 
+		if mt == "application/x-www-form-urlencoded" {
+			if err = parseURLEncodedBody(request); err != nil {
+				return errors.NewParseError(p.Name, p.parameter.In, "", err)
+			}
+		}
+
 		if err = request.ParseForm(); err != nil {
 			return errors.NewParseError(p.Name, p.parameter.In, "", err)
 		}
@@ -276,6 +283,33 @@ func (p *untypedParamBinder) Bind(request *http.Request, routeParams RouteParams
 	default:
 		return errors.New(http.StatusInternalServerError, fmt.Sprintf("invalid parameter location %q", p.parameter.In))
 	}
+}
+
+// maxURLEncodedBody is the limit net/http applies to a urlencoded form body.
+const maxURLEncodedBody = int64(10 << 20)
+
+// parseURLEncodedBody reads the form fields of a urlencoded body for the methods that
+// (*http.Request).ParseForm leaves alone: net/http only reads the body of POST, PUT and PATCH
+// requests, but any request that may have a body (see runtime.CanHaveBody: DELETE) can carry
+// form fields. The fields end up in request.PostForm, which ParseForm then merges into request.Form.
+func parseURLEncodedBody(request *http.Request) error {
+	switch request.Method {
+	case http.MethodPost, http.MethodPut, http.MethodPatch:
+		return nil // ParseForm reads these
+	}
+	if request.PostForm != nil || request.Body == nil {
+		return nil
+	}
+	body, err := io.ReadAll(io.LimitReader(request.Body, maxURLEncodedBody+1))
+	if err != nil {
+		return err
+	}
+	if int64(len(body)) > maxURLEncodedBody {
+		return errors.New(http.StatusRequestEntityTooLarge, "form body too large")
+	}
+	values, err := url.ParseQuery(string(body))
+	request.PostForm = values
+	return err
 }
 
 func (p *untypedParamBinder) bindValue(data []string, hasKey bool, target reflect.Value) error {
